@@ -4,6 +4,7 @@ package c12
 import (
 	"fmt"
 	"google.golang.org/protobuf/types/known/timestamppb"
+	"runtime"
 	"strings"
 	"time"
 
@@ -411,8 +412,82 @@ func Run(c *engine.Ctx) {
 		}
 	}
 
+	// 2b. size classes: copies, unions and intersections of lists with 40, 515, 1027 and 2000 nodes; edits at the
+	// first, a middle and the last two nodes of one side must not show on the other (chunking and threshold code)
+	wide(c)
+
 	// 3. histories of calls sharing operands: earlier results never change
 	histories(c)
+}
+
+func wide(c *engine.Ctx) {
+	c.Group("wide-independence")
+	sizes := []int{40, 515, 1027, 2000}
+	c.Bound("wide-independence", fmt.Sprintf("lists of %v nodes x {Copy, Union as left / right operand, Intersect} x edits (name, appended licence, new hash key, supplier name) at nodes 0, n/2, n-2, n-1 of the result or of an operand; GOMAXPROCS=%d", sizes, runtime.GOMAXPROCS(0)))
+	mk := func(n int, tag string) *sbom.NodeList {
+		nl := &sbom.NodeList{}
+		for i := 0; i < n; i++ {
+			id := fmt.Sprintf("w%04d", i)
+			nl.Nodes = append(nl.Nodes, &sbom.Node{Id: id, Name: tag + id, Licenses: []string{"L1"}, Hashes: map[int32]string{1: "h" + id}, Suppliers: []*sbom.Person{{Name: "s" + id}}})
+			if i > 0 {
+				nl.Edges = append(nl.Edges, &sbom.Edge{From: "w0000", Type: sbom.Edge_contains, To: []string{id}})
+			}
+		}
+		nl.RootElements = []string{"w0000"}
+		return nl
+	}
+	edit := func(n *sbom.Node) {
+		n.Name += "-edited"
+		n.Licenses = append(n.Licenses, "L-new")
+		n.Licenses[0] = "L-changed"
+		n.Hashes[9] = "new"
+		n.Suppliers[0].Name = "edited"
+	}
+	ops := []struct {
+		Name string
+		Do   func(a, b *sbom.NodeList) *sbom.NodeList
+	}{
+		{"Copy", func(a, _ *sbom.NodeList) *sbom.NodeList { return a.Copy() }},
+		{"Union", func(a, b *sbom.NodeList) *sbom.NodeList { return a.Union(b) }},
+		{"Intersect", func(a, b *sbom.NodeList) *sbom.NodeList { return a.Intersect(b) }},
+	}
+	for _, n := range sizes {
+		for oi := range ops {
+			for side := 0; side < 3; side++ { // edit the result / operand A / operand B
+				n, oi, side := n, oi, side
+				c.Case(func() any {
+					return map[string]any{"nodes": n, "op": ops[oi].Name, "edited": []string{"result", "A", "B"}[side]}
+				}, func(t *engine.T) *engine.Violation {
+					a, b := mk(n, "A"), mk(n, "B")
+					r := ops[oi].Do(a, b)
+					t.Transitions(1)
+					t.Validated(1)
+					all := []*sbom.NodeList{r, a, b}
+					if len(r.Nodes) != n {
+						return engine.Violate("copy-equal", "wide", "%s of %d-node lists has %d nodes", ops[oi].Name, n, len(r.Nodes))
+					}
+					var before [3]string
+					for i := range all {
+						before[i] = gen.Snap(all[i])
+					}
+					for _, idx := range []int{0, n / 2, n - 2, n - 1} {
+						edit(all[side].Nodes[idx])
+					}
+					for i := range all {
+						if i == side || (side > 0 && i > 0) {
+							continue
+						}
+						if after := gen.Snap(all[i]); after != before[i] {
+							return engine.Violate("result-independent", "wide:"+ops[oi].Name, "%s on %d-node lists: editing nodes of %s changed %s: %s", ops[oi].Name, n, []string{"the result", "operand A", "operand B"}[side], []string{"the result", "operand A", "operand B"}[i], gen.SnapDiff(before[i], after))
+						}
+					}
+					t.State(fmt.Sprint("wide", n, oi, side))
+					t.Outcome("wide-independent-ok")
+					return nil
+				})
+			}
+		}
+	}
 }
 
 func sortStrings(s []string) {
